@@ -408,8 +408,9 @@ type c01World struct {
 	dead   bool
 
 	// context of the operation being checked (for signatures)
-	opKind  string
-	sigHint string
+	opKind    string
+	sigHint   string
+	sigFamily string
 
 	// what the case contained
 	sawReparentLoad, sawDeleteLoad, sawOverMax, sawMinRaise, sawMigrate, sawTerminating, sawReset bool
@@ -555,13 +556,25 @@ var c01Fields = []c01Field{
 	{"SelfNonPreemptibleUsed", func(s *QuotaInfoSummary) corev1.ResourceList { return s.SelfNonPreemptibleUsed }, func(e *c01Exp) c01Vec { return e.selfNPUsed }},
 }
 
+// sig builds the violation signature: normally <operation>:<what differs>[:<hint>]; when the operation was
+// issued in a situation that is a known root cause of its own (sigFamily) every symptom gets that one signature.
 func (w *c01World) sig(rest string) string {
+	if w.sigFamily != "" {
+		return w.sigFamily
+	}
 	s := w.opKind + ":" + rest
 	if w.sigHint != "" {
 		s += ":" + w.sigHint
 	}
 	return s
 }
+
+const (
+	c01SigMisrouted  = "default-fallback:pod-event-misses-pod-still-counted-in-default-quota"
+	c01SigStaleCache = "migrateCycle:cached-pod-object-stale"
+)
+
+func (w *c01World) begin(kind string) { w.opKind, w.sigHint, w.sigFamily = kind, "", "" }
 
 // check is oracle (a): compare the reported summaries with the from-scratch recomputation.
 func (w *c01World) check(t *rapid.T) {
@@ -848,7 +861,7 @@ func (w *c01World) opQuotaCreate(t *rapid.T) {
 	if rapid.IntRange(0, 2).Draw(t, "hasWeight") == 0 {
 		q.Weight = c01Vec{rapid.Int64Range(1, 4000).Draw(t, "wCPU"), rapid.Int64Range(1, 1<<20).Draw(t, "wMem")}
 	}
-	w.opKind, w.sigHint = "quotaCreate", ""
+	w.begin("quotaCreate")
 	w.quotas[name] = q
 	w.log("quotaCreate %s", q)
 	if err := w.gqm.UpdateQuota(q.build()); err != nil {
@@ -882,7 +895,7 @@ func (w *c01World) opQuotaUpdate(t *rapid.T) {
 			q.Weight = c01Vec{}
 		}
 	}
-	w.opKind, w.sigHint = "quotaUpdate", ""
+	w.begin("quotaUpdate")
 	w.log("quotaUpdate(what=%d) %s", what, q)
 	if err := w.gqm.UpdateQuota(q.build()); err != nil {
 		w.violation(t, "quotaUpdate:error", "UpdateQuota(%s) returned %v", q, err)
@@ -893,7 +906,7 @@ func (w *c01World) opToggleLent(t *rapid.T) {
 	name := rapid.SampledFrom(w.userQuotas()).Draw(t, "quota")
 	q := w.quotas[name]
 	q.AllowLent = !q.AllowLent
-	w.opKind, w.sigHint = "quotaToggleLent", ""
+	w.begin("quotaToggleLent")
 	w.sawReset = true
 	w.log("quotaToggleLent %s", q)
 	if err := w.gqm.UpdateQuota(q.build()); err != nil {
@@ -919,7 +932,7 @@ func (w *c01World) opToggleIsParent(t *rapid.T) {
 	name := rapid.SampledFrom(w.toggleParentCandidates()).Draw(t, "quota")
 	q := w.quotas[name]
 	q.IsParent = !q.IsParent
-	w.opKind, w.sigHint = "quotaToggleIsParent", ""
+	w.begin("quotaToggleIsParent")
 	w.sawReset = true
 	w.log("quotaToggleIsParent %s", q)
 	if err := w.gqm.UpdateQuota(q.build()); err != nil {
@@ -978,7 +991,7 @@ func (w *c01World) opReparent(t *rapid.T) {
 			}
 		}
 	}
-	w.opKind, w.sigHint = "quotaReparent", ""
+	w.begin("quotaReparent")
 	if over {
 		w.sigHint = "moved-quota-over-max"
 	}
@@ -1023,7 +1036,7 @@ func (w *c01World) opQuotaDelete(t *rapid.T) {
 	}
 	load := w.subtreeHasAssigned(name)
 	over := w.overMax(name)
-	w.opKind, w.sigHint = "quotaDelete", ""
+	w.begin("quotaDelete")
 	if over {
 		w.sigHint = "deleted-quota-over-max"
 	}
@@ -1103,7 +1116,7 @@ func (w *c01World) opPodAdd(t *rapid.T) {
 	if s.Label != "" && target == extension.DefaultQuotaName && s.Label != extension.DefaultQuotaName {
 		w.sawFallback = true
 	}
-	w.opKind, w.sigHint = "podAdd", ""
+	w.begin("podAdd")
 	w.log("podAdd %s -> %s", s, target)
 	w.plugPodAdd(p)
 }
@@ -1162,9 +1175,9 @@ func (w *c01World) opPodUpdate(t *rapid.T) {
 	if s.Label != "" && target == extension.DefaultQuotaName && s.Label != extension.DefaultQuotaName {
 		w.sawFallback = true
 	}
-	w.opKind, w.sigHint = "podUpdate", ""
+	w.begin("podUpdate")
 	if mis {
-		w.sigHint = "pod-still-in-default-after-its-quota-appeared"
+		w.sigFamily = c01SigMisrouted
 	}
 	w.log("podUpdate(%s) %s -> %s (event routed old=%s new=%s)", kind, s, target, w.route(oldSpec.Label), target)
 	w.plugPodUpdate(oldSpec, oldObj, p)
@@ -1172,9 +1185,9 @@ func (w *c01World) opPodUpdate(t *rapid.T) {
 
 func (w *c01World) podDelete(t *rapid.T, name string) {
 	p := w.pods[name]
-	w.opKind, w.sigHint = "podDelete", ""
+	w.begin("podDelete")
 	if w.misrouted(p) {
-		w.sigHint = "pod-still-in-default-after-its-quota-appeared"
+		w.sigFamily = c01SigMisrouted
 	}
 	w.log("podDelete %s (member of %q, event routed to %s)", name, p.In, w.route(p.Spec.Label))
 	delete(w.pods, name)
@@ -1200,7 +1213,7 @@ func (w *c01World) opReserve(t *rapid.T) {
 	name := rapid.SampledFrom(w.reserveCandidates()).Draw(t, "pod")
 	p := w.pods[name]
 	p.Assigned = true
-	w.opKind, w.sigHint = "reserve", ""
+	w.begin("reserve")
 	w.log("reserve %s in %s", name, p.In)
 	w.gqm.ReservePod(w.route(p.Spec.Label), c01Assumed(p))
 }
@@ -1221,7 +1234,7 @@ func (w *c01World) opUnreserve(t *rapid.T) {
 	p := w.pods[name]
 	p.Assigned = false
 	w.sawUnreserve = true
-	w.opKind, w.sigHint = "unreserve", ""
+	w.begin("unreserve")
 	w.log("unreserve %s in %s", name, p.In)
 	w.gqm.UnreservePod(w.route(p.Spec.Label), c01Assumed(p))
 }
@@ -1235,10 +1248,10 @@ func (w *c01World) opMigrate(t *rapid.T) {
 			movedModel = append(movedModel, pn+"->"+p.In)
 		}
 	}
-	w.opKind, w.sigHint = "migrateCycle", ""
+	w.begin("migrateCycle")
 	n, stale := w.plugMigrateCycle()
 	if stale {
-		w.sigHint = "cached-pod-object-stale"
+		w.sigFamily = c01SigStaleCache
 	}
 	if n > 0 {
 		w.sawMigrate = true
@@ -1249,7 +1262,7 @@ func (w *c01World) opMigrate(t *rapid.T) {
 func (w *c01World) opNode(t *rapid.T) {
 	name := rapid.SampledFrom([]string{"n0", "n1", "n2"}).Draw(t, "node")
 	alloc := c01RL(c01Vec{c01GenAmount(t, 0, "nodeCPU"), c01GenAmount(t, 1, "nodeMem")}, c01Both)
-	w.opKind, w.sigHint = "node", ""
+	w.begin("node")
 	old := w.nodes[name]
 	switch {
 	case old == nil:
@@ -1271,7 +1284,7 @@ func (w *c01World) opNode(t *rapid.T) {
 }
 
 func (w *c01World) opReset(t *rapid.T) {
-	w.opKind, w.sigHint = "resetQuota", ""
+	w.begin("resetQuota")
 	w.sawReset = true
 	w.log("resetQuota")
 	w.gqm.ResetQuota()
@@ -1281,7 +1294,7 @@ func (w *c01World) opReset(t *rapid.T) {
 
 func (w *c01World) opRefreshRuntime(t *rapid.T) {
 	name := rapid.SampledFrom(vk.SortedKeys(w.quotas)).Draw(t, "quota")
-	w.opKind, w.sigHint = "refreshRuntime", ""
+	w.begin("refreshRuntime")
 	w.log("refreshRuntime %s", name)
 	w.gqm.RefreshRuntime(name)
 }
@@ -1395,7 +1408,7 @@ func TestVerifC01CoreHistory(t *testing.T) {
 			"op": w.step,
 			"":   w.check,
 		})
-		w.opKind, w.sigHint = "end", ""
+		w.begin("end")
 		w.differential(t, "end of run")
 
 		c.ClassIf(w.sawReparentLoad, "reparent-with-load")
